@@ -38,13 +38,14 @@ type Reply struct {
 	K    string // ok | net | status
 	Code int    `json:",omitempty"`
 	Acc  bool   `json:",omitempty"` // 401: challenge the client accepts (rotating Basic realm)
+	RA   int    `json:",omitempty"` // backoff cases: Retry-After header in seconds
 }
 type Host struct {
 	ID   int
 	Prio int
 }
 type Case struct {
-	Kind      string // next | mutate | transient | order | resume
+	Kind      string // next | mutate | transient | order | resume | backoff
 	Limit     int
 	Mirrors   []Host  `json:",omitempty"`
 	UpPrio    int     `json:",omitempty"`
@@ -444,8 +445,128 @@ func genMirrors(r *lib.Rand) ([]Host, int) {
 	return ms, prios[3] + 1
 }
 
+// backoff: one host, a series of ManifestHead calls consuming one reply script; at every request the handler takes
+// the hook snapshot of the host's backoff bookkeeping.  The counters must equal the Coq model's (vm_compute); the
+// release times must be spaced as the spacing theorem says (all comparisons are lower bounds on the client's own
+// clock readings, so scheduling noise can only widen them).
+func runBackoff(c Case, res *lib.Result) string {
+	const dInit, dMax = time.Millisecond, 8 * time.Millisecond
+	mr := memreg.New(hostNames[0], memreg.Features{Delete: true, TagDelete: true})
+	mr.PutBlob("repo", []byte("{}"))
+	mr.PutManifest("repo", "tag", "application/vnd.oci.image.manifest.v1+json", manBody)
+	type att struct {
+		t     time.Time
+		cur   int
+		last  time.Time
+		reset int
+		rp    Reply
+	}
+	var atts []att
+	var rg *reg.Reg
+	rt := &memrt.RT{}
+	rt.Handler = func(req *http.Request, body []byte, n int) *http.Response {
+		if !strings.Contains(req.URL.Path, "/manifests/") {
+			return mr.Handle(req, body, n)
+		}
+		cur, last, rs := rg.VerifBackoff(hostNames[0])
+		rp := Reply{K: "ok"}
+		if len(atts) < len(c.Replies) {
+			rp = c.Replies[len(atts)]
+		}
+		atts = append(atts, att{time.Now(), cur, last, rs, rp})
+		switch rp.K {
+		case "ok":
+			return mr.Handle(req, body, n)
+		case "net":
+			return nil
+		}
+		h := map[string]string{}
+		if rp.RA > 0 {
+			h["Retry-After"] = fmt.Sprint(rp.RA)
+		}
+		return memrt.Resp(rp.Code, h, []byte(`{"errors":[]}`))
+	}
+	lim := c.Limit
+	rg = reg.New(reg.WithConfigHosts([]*config.Host{{Name: hostNames[0], Hostname: hostNames[0], TLS: config.TLSDisabled}}),
+		reg.WithHTTPClient(&http.Client{Transport: rt}), reg.WithDelay(dInit, dMax), reg.WithRetryLimit(lim))
+	ctx, cancel := context.WithTimeout(context.Background(), 20*time.Second)
+	defer cancel()
+	r, _ := ref.New(hostNames[0] + "/repo:tag")
+	extra := c.Drops // successful requests after the script
+	for j := 0; j < 40 && (len(atts) < len(c.Replies) || extra > 0); j++ {
+		if len(atts) >= len(c.Replies) {
+			extra--
+		}
+		before := len(atts)
+		_, _ = rg.ManifestHead(ctx, r)
+		if len(atts) == before {
+			break // nothing was sent (host dropped before a request): stop
+		}
+	}
+	if ctx.Err() != nil {
+		res.Fail("request-did-not-terminate kind=backoff", "ManifestHead series still running after 20s", c)
+		return ""
+	}
+	delay := func(cur int) time.Duration {
+		d := dInit << cur
+		if d > dMax || d <= 0 {
+			d = dMax
+		}
+		return d
+	}
+	var evs, obs []string
+	for i, a := range atts {
+		evs = append(evs, "EGet 0")
+		obs = append(obs, fmt.Sprintf("(%d, %d)", a.cur, a.reset))
+		switch {
+		case a.rp.K == "ok":
+			evs = append(evs, "EOk")
+		case a.rp.K == "status" && (a.rp.Code == 404 || a.rp.Code == 416):
+			// the host is dropped for this request without a backoff
+		case a.rp.RA > 0:
+			evs = append(evs, "EFail 0 1")
+		default:
+			evs = append(evs, "EFail 0 0")
+		}
+		if a.cur > 0 && !a.last.IsZero() && a.t.Before(a.last) {
+			res.Fail("request-sent-before-release", fmt.Sprintf("attempt %d reached the registry %v before the release time the client had computed (backoff count %d)", i, a.last.Sub(a.t), a.cur), c)
+		}
+		if i == 0 {
+			continue
+		}
+		p := atts[i-1]
+		if a.cur > 0 {
+			if a.last.IsZero() {
+				res.Fail("backoff-without-release-time", fmt.Sprintf("attempt %d: backoff count %d but no release time recorded", i, a.cur), c)
+			} else {
+				from := p.last
+				if from.IsZero() {
+					from = p.t
+				}
+				if gap := a.last.Sub(from); gap < delay(a.cur) {
+					res.Fail("backoff-gap-too-short", fmt.Sprintf("attempt %d (backoff count %d) was released %v after the previous request to the host, configured delay %v", i, a.cur, gap, delay(a.cur)), c)
+				}
+			}
+		}
+		if p.rp.RA > 0 && p.rp.K == "status" {
+			if gap := a.t.Sub(p.t); gap < time.Duration(p.rp.RA)*time.Second {
+				res.Fail("retry-after-not-respected", fmt.Sprintf("attempt %d arrived %v after a reply with Retry-After: %d", i, gap, p.rp.RA), c)
+			}
+		}
+	}
+	res.Count("backoff")
+	for _, a := range atts {
+		if a.cur > 0 {
+			res.Count("backoff:delayed-attempt")
+		}
+	}
+	return fmt.Sprintf("mkBackoff %d [%s] [%s]", lim, strings.Join(evs, "; "), strings.Join(obs, "; "))
+}
+
 func runCase(c Case, res *lib.Result) string {
 	switch c.Kind {
+	case "backoff":
+		return runBackoff(c, res)
 	case "next":
 		return runNext(c, res)
 	case "mutate":
@@ -483,7 +604,7 @@ func Run(o lib.Opts) {
 		return
 	}
 	r := lib.NewRand(o.Seed)
-	cw := lib.NewCaseWriter(o.Out, "C12", "From Coq Require Import List.\nFrom Verif Require Import Model.C12_Retry Corr.C12.\nImport ListNotations.", "case", 400)
+	cw := lib.NewCaseWriter(o.Out, "C12", "From Coq Require Import List ZArith.\nFrom Verif Require Import Model.C12_Retry Model.C12_Backoff Corr.C12.\nImport ListNotations.", "case", 400)
 	var all []Case
 	for _, api := range mutAPIs {
 		all = append(all, Case{Kind: "mutate", API: api, Limit: 3, Mirrors: []Host{{1, 5}, {2, 9}}, UpPrio: 7})
@@ -491,6 +612,29 @@ func Run(o lib.Opts) {
 	all = append(all, Case{Kind: "order", Limit: 3, Mirrors: []Host{{1, 1}, {2, 10}}, UpPrio: 5})
 	for d := 0; d <= 6; d++ {
 		all = append(all, Case{Kind: "resume", Limit: 4, Drops: d})
+	}
+	// backoff series: fixed ones (incl. one server-requested delay of 1 s), then generated
+	all = append(all, Case{Kind: "backoff", Limit: 5, Drops: 8, Replies: []Reply{{K: "status", Code: 429}, {K: "status", Code: 500}, {K: "ok"}, {K: "net"}, {K: "status", Code: 502}, {K: "status", Code: 504}, {K: "status", Code: 408}, {K: "ok"}}})
+	all = append(all, Case{Kind: "backoff", Limit: 4, Drops: 2, Replies: []Reply{{K: "status", Code: 429, RA: 1}, {K: "status", Code: 429}, {K: "ok"}}})
+	nb := o.Scale(14, 400)
+	for i := 0; i < nb; i++ {
+		c := Case{Kind: "backoff", Limit: 3 + r.Intn(4), Drops: r.Intn(9)}
+		for j := 2 + r.Intn(10); j > 0; j-- {
+			switch k := r.Intn(100); {
+			case k < 25:
+				c.Replies = append(c.Replies, Reply{K: "ok"})
+			case k < 40:
+				c.Replies = append(c.Replies, Reply{K: "net"})
+			case k < 90:
+				c.Replies = append(c.Replies, Reply{K: "status", Code: lib.Pick(r, []int{429, 500, 502, 504, 408, 503, 400})})
+			default:
+				c.Replies = append(c.Replies, Reply{K: "status", Code: 404})
+			}
+		}
+		if o.Tier == "thorough" && i%40 == 0 {
+			c.Replies[0] = Reply{K: "status", Code: 429, RA: 1}
+		}
+		all = append(all, c)
 	}
 	n := o.Scale(350, 12000)
 	for i := 0; i < n; i++ {
